@@ -348,8 +348,10 @@ def verify(ctx, contract: Contract, timeout_s=None):
         # at least one exit path has a satisfiable path condition under the requires
         reach = False
         for s, out in paths:
-            st_, _, _, _ = discharge(s.pc, False, 5.0)
-            if st_ == "refuted":
+            st_, _, _, m_ = discharge(s.pc, False, 5.0, E.len_consts)
+            # a model of the path condition - or, for quantified path conditions, a small-scope
+            # model with the range-guarded quantifiers expanded - shows the exit is not vacuous
+            if st_ == "refuted" or (st_ == "unknown" and m_ is not None):
                 reach = True
                 break
         _record(ctx, res, fn, "vacuity.exit-reachable", "auxiliary", "discharged" if reach else "refuted", "z3", 0.0, "assert False at an exit is refuted (the contract is not vacuous)")
